@@ -38,6 +38,10 @@ mut('m21_aux_alias_context', 'auxfile.py', "        self.context = copy(context)
 # a bytes file name is decoded strictly
 mut('m22_filename_strict_decode', 'exceptions.py', "            return _decode_filename(self.filename, errors='replace')", "            import sys\n            return self.filename.decode(sys.getfilesystemencoding() or 'utf-8')")
 mut('m23_filename_decode_ignore', 'exceptions.py', "            return _decode_filename(self.filename, errors='replace')", "            return _decode_filename(self.filename, errors='ignore')")
+# the message is used as a format template ('format once' refactorings)
+mut('m24_aux_str_formats_message', 'auxfile.py', "        location = 'in line {0}: '.format(lineno) if lineno else ''\n        return location + base_message", "        template = 'in line {0}: ' + base_message if lineno else base_message\n        return template.format(lineno)")
+mut('m25_repeated_entry_percent_twice', 'database/__init__.py', "report_error(BibliographyDataError('repeated bibliography entry: %s' % key))", "report_error(BibliographyDataError(('repeated bibliography entry: %s' % key) % ()))")
+mut('m26_format_error_formats_line', 'errors.py', "    lines.append(u'{0}{1}'.format(prefix, str(exception)))", "    lines.append((prefix + str(exception)).format())")
 # harmless
 mut('h1_refactor_capture', 'errors.py', """    global captured_errors
     captured_errors = []
